@@ -11,6 +11,10 @@ anything outside the tiny grammar of an item is refused.
   pr_separators      SEQ_PRINT_SEPARATOR, MAP_PRINT_SEPARATOR
   pr_lrepr_types     every type with an `@lrepr.register(...)` overload (obj.py and map.py)
   pr_print_defaults  PRINT_DUP .. PRINT_READABLY (0 = False/None, 1 = True)
+  pr_trunc_guards    for the four tests by which `seq_lrepr` / `map_lrepr` abbreviate their output
+                     (print_level -> "#", print_length -> "..."): does the test start with the conjunct
+                     `not print_dup`?  (true / false; any other shape of the test, or any other function
+                     of src/basilisp using SURPASSED_PRINT_LEVEL / SURPASSED_PRINT_LENGTH, is refused)
 """
 import ast
 import os
@@ -187,6 +191,136 @@ def item_print_defaults():
     return "Definition pr_print_defaults : list (str * N) := [" + "; ".join(rows) + "].\n"
 
 
+# ---- pr_trunc_guards -------------------------------------------------------------------
+def _kwargs_get(node, key):
+    """kwargs["<key>"]"""
+    return (isinstance(node, ast.Subscript) and isinstance(node.value, ast.Name) and node.value.id == "kwargs"
+            and isinstance(node.slice, ast.Constant) and node.slice.value == key)
+
+
+def _is_name(node, name):
+    return isinstance(node, ast.Name) and node.id == name
+
+
+def _local_from_kwargs(fn, name, before):
+    """`<name> = kwargs["<name>"]` is a top-level statement of fn above line `before`, and <name> has no
+    other binding in fn."""
+    stores = [n for n in ast.walk(fn) if isinstance(n, ast.Name) and n.id == name and isinstance(n.ctx, ast.Store)]
+    tops = [s for s in fn.body if isinstance(s, ast.Assign) and len(s.targets) == 1 and _is_name(s.targets[0], name)
+            and _kwargs_get(s.value, name) and s.lineno < before]
+    return len(stores) == 1 and len(tops) == 1
+
+
+def _dup_conjunct(fn, node, before):
+    """`not print_dup` (a local read from kwargs) or `not kwargs["print_dup"]`"""
+    if not (isinstance(node, ast.UnaryOp) and isinstance(node.op, ast.Not)):
+        return False
+    x = node.operand
+    return _kwargs_get(x, "print_dup") or (_is_name(x, "print_dup") and _local_from_kwargs(fn, "print_dup", before))
+
+
+def _isinstance_int(node, var):
+    return (isinstance(node, ast.Call) and _is_name(node.func, "isinstance") and len(node.args) == 2
+            and not node.keywords and _is_name(node.args[0], var) and _is_name(node.args[1], "int"))
+
+
+def _mentions(node, names):
+    for n in ast.walk(node):
+        if isinstance(n, ast.Name) and n.id in names:
+            return True
+        if isinstance(n, ast.Constant) and n.value in names:
+            return True
+    return False
+
+
+def _trunc_guard(fn, var, limit_tests, body_ok, what):
+    """The one `if` of fn whose test mentions <var>: True when the test is
+    `not print_dup and <limit tests>`, False when it is `<limit tests>`; anything else is refused."""
+    ifs = [n for n in ast.walk(fn) if isinstance(n, (ast.If, ast.IfExp, ast.While)) and _mentions(n.test, {var})]
+    tops = [s for s in fn.body if isinstance(s, ast.If) and _mentions(s.test, {var})]
+    if len(tops) != 1:
+        raise Refuse(f"{what}: {len(tops)} top-level `if` statements on {var}")
+    st = tops[0]
+    under = {id(n) for s in st.body for n in ast.walk(s)}      # conditionals governed by the test are fine
+    if any(n is not st and id(n) not in under for n in ifs):
+        raise Refuse(f"{what}: {var} is tested outside `if {ast.unparse(st.test)}`")
+    if not _local_from_kwargs(fn, var, st.lineno):
+        raise Refuse(f"{what}: {var} is not read once from kwargs above the test")
+    if not body_ok(st):
+        raise Refuse(f"{what}: the body of `if {ast.unparse(st.test)}` has another shape")
+    t = st.test
+    conj = t.values if isinstance(t, ast.BoolOp) and isinstance(t.op, ast.And) else [t]
+    guarded = bool(conj) and _dup_conjunct(fn, conj[0], st.lineno)
+    rest = conj[1:] if guarded else conj
+    if len(rest) != len(limit_tests) or not all(p(x) for p, x in zip(limit_tests, rest)):
+        raise Refuse(f"{what}: test `{ast.unparse(t)}` is neither `not print_dup and <limit test>` nor `<limit test>`")
+    return guarded
+
+
+def _level_body(st):
+    return (len(st.body) == 1 and isinstance(st.body[0], ast.Return) and _is_name(st.body[0].value, "SURPASSED_PRINT_LEVEL")
+            and not st.orelse)
+
+
+def _length_body(st):
+    marks = [n for n in ast.walk(st) if _is_name(n, "SURPASSED_PRINT_LENGTH")]
+    in_body = [n for s in st.body for n in ast.walk(s) if _is_name(n, "SURPASSED_PRINT_LENGTH")]
+    return len(marks) == 1 and len(in_body) == 1 and bool(st.orelse) and not _mentions(ast.Module(st.orelse, []), {"print_length"})
+
+
+def _lt_one(var):
+    return lambda n: (isinstance(n, ast.Compare) and _is_name(n.left, var) and len(n.ops) == 1 and isinstance(n.ops[0], ast.Lt)
+                      and isinstance(n.comparators[0], ast.Constant) and n.comparators[0].value == 1
+                      and type(n.comparators[0].value) is int)
+
+
+def item_trunc_guards():
+    rows = []
+    for rel, name in ((OBJ, "seq_lrepr"), (MAP, "map_lrepr")):
+        fn = _find_fn(_tree(rel), name)
+        rows.append((f"{name}.print_level",
+                     _trunc_guard(fn, "print_level", [lambda n: _isinstance_int(n, "print_level"), _lt_one("print_level")],
+                                  _level_body, f"{name} print_level")))
+        rows.append((f"{name}.print_length",
+                     _trunc_guard(fn, "print_length", [lambda n: _isinstance_int(n, "print_length")],
+                                  _length_body, f"{name} print_length")))
+        marks = sorted(n.id for n in ast.walk(fn) if isinstance(n, ast.Name) and n.id.startswith("SURPASSED_PRINT_"))
+        if marks != ["SURPASSED_PRINT_LENGTH", "SURPASSED_PRINT_LEVEL"]:
+            raise Refuse(f"{name}: uses {marks}")
+    # no other function of the package abbreviates: the two markers are used nowhere else
+    root = os.path.join(paths.REPO, "src", "basilisp")
+    for dp, dn, fns in os.walk(root):
+        dn.sort()
+        for f in sorted(fns):
+            if not f.endswith((".py", ".lpy")):
+                continue
+            path = os.path.join(dp, f)
+            text = open(path, encoding="utf-8").read()
+            if "SURPASSED_PRINT" not in text and "SURPASSED-PRINT" not in text:
+                continue
+            rel = os.path.relpath(path, paths.REPO)
+            if not f.endswith(".py"):
+                raise Refuse(f"{rel} mentions SURPASSED_PRINT_*")
+            allowed = {OBJ: "seq_lrepr", MAP: "map_lrepr"}.get(rel)
+            tree = ast.parse(text)
+            inside = set()
+            if allowed:
+                inside = {id(n) for n in ast.walk(_find_fn(tree, allowed))}
+            for n in ast.walk(tree):
+                used = (isinstance(n, ast.Name) and n.id.startswith("SURPASSED_PRINT_") and isinstance(n.ctx, ast.Load)) \
+                    or (isinstance(n, ast.Attribute) and n.attr.startswith("SURPASSED_PRINT_"))
+                if used and id(n) not in inside:
+                    raise Refuse(f"{rel}:{n.lineno} uses a SURPASSED_PRINT_* marker outside seq_lrepr / map_lrepr")
+    # the markers themselves
+    tree = _tree(OBJ)
+    if _const_str(_find_assign(tree, "SURPASSED_PRINT_LENGTH"), "SURPASSED_PRINT_LENGTH") != "..." or \
+            _const_str(_find_assign(tree, "SURPASSED_PRINT_LEVEL"), "SURPASSED_PRINT_LEVEL") != "#":
+        raise Refuse("SURPASSED_PRINT_LENGTH / SURPASSED_PRINT_LEVEL are not '...' / '#'")
+    return ("Definition pr_trunc_guards : list (str * bool) := [\n  "
+            + ";\n  ".join(f"({gstr(n)}, {'true' if g else 'false'}) (* {n}: {'not print_dup and <test>' if g else '<test> alone'} *)"
+                           for n, g in rows) + "\n].\n")
+
+
 ITEMS = [
     ("pr_str_escapes", item_str_escapes),
     ("pr_delims", item_delims),
@@ -195,6 +329,7 @@ ITEMS = [
     ("pr_separators", item_separators),
     ("pr_lrepr_types", item_lrepr_types),
     ("pr_print_defaults", item_print_defaults),
+    ("pr_trunc_guards", item_trunc_guards),
 ]
 
 if __name__ == "__main__":
